@@ -221,6 +221,8 @@ func matchDiags(d diag.Diagnostics, exp []expDiag, exactCounts bool) string {
 		}
 		return strings.Contains(low, "convert")
 	}
+	// expectations with a fixed full path are exact and are served first
+	sort.SliceStable(e, func(i, j int) bool { return e[i].full != "" && e[j].full == "" })
 	rest := details[:0:0]
 	for _, det := range details {
 		found := false
